@@ -433,8 +433,10 @@ func findSanitizer(p *core.Prog, bufs map[*ssa.Function]map[ssa.Value]bool, want
 		if ptrTo(fn.Params[0].Type()) == nil {
 			continue
 		}
-		quotes, loops := false, outerLoop(fn) != nil
-		sx.Instrs(fn, func(in ssa.Instruction) {
+		// judged on the inlined view: the scan may live in a predicate helper
+		view := p.Inl(fn)
+		quotes, loops := false, outerLoop(view) != nil
+		sx.Instrs(view, func(in ssa.Instruction) {
 			if c, ok := in.(*ssa.Call); ok && sx.CalleeName(c) == "strconv.AppendQuote" {
 				quotes = true
 			}
